@@ -409,7 +409,7 @@ func genNodeHistory(r *RNG, nBlocks int) []string {
 			}
 		case "TX":
 			txbuf = []string{l}
-		case "M", "X", "XEND":
+		case "M", "X", "XEND", "SIGMOD":
 			if txbuf != nil {
 				txbuf = append(txbuf, l)
 			} else {
